@@ -13,7 +13,7 @@ import Mathlib.LinearAlgebra.Matrix.Notation
 import Batteries.Data.Char.AsciiCasing
 import GT.Lemmas.Rep
 
-namespace GT
+namespace GT.RepW
 namespace Fox
 
 /-! ## free reduction -/
@@ -1063,7 +1063,7 @@ theorem side_conditions_of_valid {n : ℕ} {R : Type} (ρ : Rep n R)
     (∀ g ∈ ρ.asymGens, invertGen (invertGen g) = g) := by
   have hmem : ∀ g, g ∈ ρ.asymGens → validName g = true ∧ isAsym g = true := by
     intro g hg
-    unfold Rep.asymGens GT.asymGens at hg
+    unfold Rep.asymGens GT.RepW.asymGens at hg
     rw [List.mem_filter] at hg
     exact ⟨hv g hg.1, hg.2⟩
   refine ⟨hnd.filter _, fun g hg h hh e => ?_, fun g hg => ?_⟩
@@ -1143,4 +1143,4 @@ example : ∃ rows cb, exRep.cocycleMatrix = .ok rows ∧ exRep.coboundaryMatrix
 end example_
 
 end Fox
-end GT
+end GT.RepW
